@@ -125,7 +125,7 @@ PROPERTY_RULES: Dict[str, List[Scoped]] = {
         _r("COST-MONOTONE"), _r("MEMO-KEY"), _r("READONLY-INPUT"),
         _r("SORT-KEY-ALIGNED"),
         # a configuration and its mirror image are priced alike iff both are priced as the (orientation-free) model says
-        _r("EVENT-SIG"), _r("MODEL-TABLE"), _r("CONSERVED-SIDE"),
+        _r("EVENT-SIG"), _r("MODEL-TABLE"), _r("CONSERVED-SIDE"), _r("ITERATOR-REUSE", S_COMPUTE), _r("COST-GUARD"),
     ],
     "C10": [
         _r("BASE-EXT-SHARE"), _r("EVENT-SIG"), _r("COSTKEYS"), _r("SIBLING-PAIRING"), _r("READONLY-DECODE"),
@@ -145,7 +145,7 @@ PROPERTY_RULES: Dict[str, List[Scoped]] = {
         _r("ERROR-PATH"), _r("COST-OPTIONS"), _r("CLI-COST-SOURCE"), _r("COST-PASSTHROUGH"), _r("DISPATCH-KEYS"),
         _r("COST-TRUTH", S_CLI + S_MODEL), _r("FIELD-COPY-COMPLETE", S_CLI), _r("RESULT-SCOPE"),
         _r("LABEL-PASS", ("cli.", "compute.")), _r("LAYOUT-SIDES"), _r("LOSS-WALK"), _r("SORT-KEY-ALIGNED"), _r("RESULT-UNCONDITIONAL"),
-        _r("TREE-WRITE-ARGS"), _r("KEY-GUARD", S_CLI + S_MODEL), _r("COST-KEY-RESOLUTION"), _r("ANCHOR-SET"),
+        _r("TREE-WRITE-ARGS"), _r("KEY-GUARD", S_CLI + S_MODEL), _r("COST-KEY-RESOLUTION"), _r("ANCHOR-SET"), _r("CLI-FLOW-TABLE"),
     ],
     "C13": [
         _r("KIND-EXHAUSTIVE"), _r("KIND-AGREE"), _r("ONE-EVENT-NODE"), _r("ONE-ARROW"), _r("LOSS-MARKERS"),
@@ -549,3 +549,75 @@ PROPERTY_INFO: Dict[str, Dict] = {
         "not_decided": ["every 'exactly the trees displaying every triple' clause", "union-find values"],
     },
 }
+
+
+# clauses added in the fourth round (rules derived from the mutation sweep and the fourth batch of seeded changes)
+_DECIDED_ROUND4 = {
+    "C01": [
+        "the unit costs reach the recurrences through arithmetic only: no test depends on a value derived from the cost vector (COST-GUARD, interprocedural taint)",
+        "the enumerator and the decoder have no early stop or count limit, and no hash() value is used as an identity (ENUM-NO-TRUNCATION, HASH-IDENTITY)",
+    ],
+    "C02": [
+        "a prescribed root synteny is used verbatim as the only root order (ROOT-ORDER-SOURCE); outputs carry ordered=True (OUTPUT-FLAG)",
+        "the evaluator's event table that ranks the decoded solutions is the documented one (EVENT-TABLE); no cost-dependent test (COST-GUARD)",
+    ],
+    "C03": [
+        "set algebra on family sets never unpacks a synteny into characters (SET-ALGEBRA-ARGS); outputs carry ordered=False (OUTPUT-FLAG)",
+        "the evaluator's event table that ranks the decoded solutions is the documented one (EVENT-TABLE); no cost-dependent test (COST-GUARD)",
+    ],
+    "C04": [
+        "the cost vector survives the dictionary round trip of binarize unchanged and unfiltered (COST-PASSTHROUGH); precedence sets are extended, never replaced (GRAPH-KEYS)",
+        "optional dictionary keys are read only where present (KEY-GUARD); the ordered flag matches the solver (OUTPUT-FLAG); family sets are not unpacked into characters (SET-ALGEBRA-ARGS)",
+    ],
+    "C05": [
+        "no early stop / count limit in decoders and enumerators, no hash() identity, no cost-dependent pruning (ENUM-NO-TRUNCATION, HASH-IDENTITY, COST-GUARD); evaluator event table (EVENT-TABLE)",
+    ],
+    "C07": [
+        "the LCA oracle it relies on: Euler tour indices, sparse-table windows and level count (EULER-INDEX, RMQ-WINDOWS)",
+    ],
+    "C08": [
+        "the unrefined shortcut needs BOTH trees binary and every refinement is written under the key of the tree it refines (BINARIZE-GUARD)",
+        "subtrees are never identified by the name of their root (NAME-AS-KEY); copies are lossless (COPY-FAITHFUL); enumerators have no early stop (ENUM-NO-TRUNCATION); costs survive the round trip (COST-PASSTHROUGH)",
+    ],
+    "C09": [
+        "no one-shot iterator is walked twice (child order would decide which decodings survive) and no cost-dependent test (ITERATOR-REUSE, COST-GUARD)",
+    ],
+    "C10": [
+        "children decode from the content stored for their parent (DECODE-CONTENT-FLOW); evaluator event table (EVENT-TABLE); no cost-dependent pruning (COST-GUARD)",
+    ],
+    "C11": [
+        "optional keys are read only on the branch where they are present (KEY-GUARD); cost keys resolve to the member of the right enumeration, members are kept (COST-KEY-RESOLUTION)",
+        "the natural-sort key is built from every part of the split (SORT-KEY-ALIGNED); tree copies are lossless (COPY-FAITHFUL)",
+    ],
+    "C12": [
+        "decision table of call_algorithm / reconcile / dump_results over (algorithm kind, input kind, answer shape): who is called with what, what is returned, status 1 exactly when nothing is written, one JSON document and newline per solution, the printed minimum is the cost of a returned solution and goes to stderr (CLI-FLOW-TABLE)",
+        "trees are written with their root label (TREE-WRITE-ARGS); optional keys (KEY-GUARD); cost-key resolution (COST-KEY-RESOLUTION); anchors of drawn branches exist (ANCHOR-SET, LOSS-WALK)",
+    ],
+    "C13": [
+        "abstract execution of _add_losses over the tree model: one loss node per skipped species, on the side the lineage comes from, linked to the node below, registered as anchor (LOSS-WALK)",
+        "every handler registers its node as an anchor and removes only children it brought into the same species (ANCHOR-SET); the drawing code receives the total mapping, never the leaf mapping (LEAF-MAP-DOMAIN)",
+    ],
+    "C14": [
+        "loss chains over the tree model (LOSS-WALK) and anchor bookkeeping (ANCHOR-SET): necessary for 'every anchor referenced by a drawn branch exists'",
+    ],
+    "C15": [
+        "the wrap width reaches the wrapping routine unchanged (WIDTH-VERBATIM); the text shown for a node's synteny does not depend on its parent's (LABEL-OMIT leaf-label-source)",
+    ],
+    "C16": [
+        "decision table of Entry.__init__ for both call conventions: value, fresh tag set and the two policies come from the right arguments (ENTRY-CTOR)",
+    ],
+    "C17": [
+        "the sparse table has enough levels for the deepest query, decided over lengths 1..64 by the analyser's own integer arithmetic (RMQ-WINDOWS level-count)",
+    ],
+    "C18": [
+        "SEGMENT-MACHINE decides equivalence of the extracted transducer with the reference run counter by exploring their product (any state design is accepted; non-empty children only)",
+    ],
+    "C19": [
+        "toposort answers None exactly on the failed completeness test (TOPO-VERDICT); the all-orderings routine has no early stop or count limit (ENUM-NO-TRUNCATION)",
+    ],
+    "C20": [
+        "no one-shot iterator is handed to a parameter that is walked twice (ITERATOR-REUSE across calls); copies are lossless (COPY-FAITHFUL); enumerators have no early stop (ENUM-NO-TRUNCATION); subtrees are not identified by name (NAME-AS-KEY)",
+    ],
+}
+for _k, _v in _DECIDED_ROUND4.items():
+    PROPERTY_INFO[_k]["decided"] = list(PROPERTY_INFO[_k]["decided"]) + _v
